@@ -78,6 +78,10 @@ def _hash_headers():
     return h.hexdigest()
 
 
+def _hash_repo_cpp(rel):
+    return hashlib.sha256(open(os.path.join(REPO, "src", rel), "rb").read()).hexdigest()
+
+
 def _hash_harness_headers():
     h = hashlib.sha256()
     for f in _files_under(HARNESS, (".hpp", ".h")):
@@ -132,7 +136,7 @@ def ensure(variant, targets):
                 sflags = flags
                 if s == "sched.cpp":  # the scheduler TU is never instrumented
                     sflags = COMMON + ["-O2"]
-                tobjs.append(obj_for(os.path.join(HARNESS, s), sflags + extra + inc + ["-I" + HARNESS], hhdr))
+                tobjs.append(obj_for(os.path.join(HARNESS, s), sflags + extra + inc + ["-I" + HARNESS], hhdr + (_hash_repo_cpp("bloch/update/update_manager.cpp") if t == "upd_mc" else "")))
             allobjs = tobjs + (core_objs if link_core else [])
             hh = hashlib.sha256(" ".join(allobjs + flags).encode()).hexdigest()[:16]
             exe = os.path.join(exedir, "%s-%s" % (t, hh))
@@ -149,7 +153,7 @@ def ensure(variant, targets):
                 os.rename(c[-1], c[-1][:-4])
             sys.stderr.write("[vbuild] %s: compiled %d TUs in %.1fs\n" % (variant, len(jobs), time.time() - t0))
         for exe, allobjs in links:
-            cmd = [CXX] + flags + allobjs + ["-o", exe + ".tmp"]
+            cmd = [CXX] + flags + allobjs + ["-o", exe + ".tmp"] + (["-lcrypto"] if "upd_mc" in exe else [])
             _sh(cmd, None)
             os.rename(exe + ".tmp", exe)
         # prune: keep the 60 most recently used objects / 40 executables per variant
